@@ -52,20 +52,20 @@ type outURL struct {
 }
 
 type ledgerLine struct {
-	Ev              string   `json:"ev"`
-	Msg             string   `json:"msg,omitempty"`
-	EverReachable   bool     `json:"ever_reachable,omitempty"`
-	ListenerAtExit  bool     `json:"listener_at_exit,omitempty"`
-	Probe           string   `json:"probe,omitempty"`
-	Class           string   `json:"class,omitempty"`
-	Via             string   `json:"via,omitempty"`
-	URL             string   `json:"url,omitempty"`
-	Status          int      `json:"status,omitempty"`
-	Err             string   `json:"err,omitempty"`
-	OK              bool     `json:"ok,omitempty"`
-	Attempts        []string `json:"attempts,omitempty"` // requests that left the client: "<scheme> <host><path>"
-	ClientStrict    bool     `json:"client_strict,omitempty"`
-	ConfiguredStrict bool    `json:"configured_strict,omitempty"`
+	Ev               string   `json:"ev"`
+	Msg              string   `json:"msg,omitempty"`
+	EverReachable    bool     `json:"ever_reachable,omitempty"`
+	ListenerAtExit   bool     `json:"listener_at_exit,omitempty"`
+	Probe            string   `json:"probe,omitempty"`
+	Class            string   `json:"class,omitempty"`
+	Via              string   `json:"via,omitempty"`
+	URL              string   `json:"url,omitempty"`
+	Status           int      `json:"status,omitempty"`
+	Err              string   `json:"err,omitempty"`
+	OK               bool     `json:"ok,omitempty"`
+	Attempts         []string `json:"attempts,omitempty"` // requests that left the client: "<scheme> <host><path>"
+	ClientStrict     bool     `json:"client_strict,omitempty"`
+	ConfiguredStrict bool     `json:"configured_strict,omitempty"`
 }
 
 type jsonLedger struct{ l *worker.Ledger }
@@ -111,6 +111,19 @@ func remoteWorld(rec *recorder) {
 				host = h
 			}
 			switch {
+			case strings.HasPrefix(r.URL.Path, "/hops/"):
+				// /hops/<code.scheme.host>[-<code.scheme.host>...]/<token>: pop the first hop and redirect accordingly
+				parts := strings.SplitN(strings.TrimPrefix(r.URL.Path, "/hops/"), "/", 2)
+				hops := strings.Split(parts[0], "-")
+				hop := strings.Split(hops[0], ".")
+				code := 302
+				fmt.Sscan(hop[0], &code)
+				target := map[string]string{"same": host, "other": "elsewhere.zorgnetwerk.nl", "ip": "198.51.100.99"}[hop[2]]
+				next := "/landed/" + parts[1]
+				if len(hops) > 1 {
+					next = "/hops/" + strings.Join(hops[1:], "-") + "/" + parts[1]
+				}
+				http.Redirect(w, r, hop[1]+"://"+target+next, code)
 			case strings.HasPrefix(r.URL.Path, "/r2http/"):
 				http.Redirect(w, r, "http://"+host+"/landed"+strings.TrimPrefix(r.URL.Path, "/r2http"), http.StatusFound)
 			case strings.HasPrefix(r.URL.Path, "/r2https/"):
@@ -354,7 +367,10 @@ func runProbes(led jsonLedger, rec *recorder, sp childSpec, system *core.System)
 			try("iam.RequestObjectByGet", func() error { _, err := iamClient.RequestObjectByGet(context.Background(), target); return err })
 			if u, err := url.Parse(target); err == nil && !strings.Contains(u.Path, "/r2") {
 				issuer := u.Scheme + "://" + u.Host + "/issuer" + tok
-				try("iam.AuthorizationServerMetadata", func() error { _, err := iamClient.AuthorizationServerMetadata(context.Background(), issuer); return err })
+				try("iam.AuthorizationServerMetadata", func() error {
+					_, err := iamClient.AuthorizationServerMetadata(context.Background(), issuer)
+					return err
+				})
 			}
 		}
 	}
